@@ -113,6 +113,14 @@ func (f *frame) applyCall(c *ssa.CallCommon, v ssa.Value, pos token.Pos, deferre
 		if slot != nil {
 			f.slotRequires(slot, sargs, pos)
 		}
+		// a call of a function-typed parameter is visible to at_call / calls clauses as
+		// pkg.$param (the callback protocol of enumerate-style functions)
+		if !c.IsInvoke() && f == e.top {
+			if prm, ok := c.Value.(*ssa.Parameter); ok && f.fn.Pkg != nil {
+				pkey := f.fn.Pkg.Pkg.Name() + ".$" + prm.Name()
+				f.atCallObligations(pkey, sargs, pos)
+			}
+		}
 		// interface method calls are visible to at_call / calls clauses as pkg.Iface.method
 		var invMatches map[int]string
 		if c.IsInvoke() {
